@@ -308,6 +308,99 @@ fn table_mesh_poly(st: &mut Stats, rng: &mut Rng) {
 }
 
 // ---------- non-mutation of operands, owned == borrowed, with hostile bit patterns ----------
+/// Histories: the range that counts is the CURRENT one. Objects are first shrunk through their own API (pop / resize /
+/// clear, delete_row / resize / transpose_in_place, coeffs().pop / trim, Mesh1D::read of a shorter file) and then every
+/// checked accessor is called with arguments that were valid before the shrink and are out of range now.
+fn table_after_shrink(st: &mut Stats, rng: &mut Rng, workdir: &str, seed: u64) {
+    // Vector
+    for n in 1..=MAXS { for how in 0..4usize {
+        st.next_case();
+        let mut v = rv(rng, n);
+        let newn = match how { 0 => { let _ = v.pop(); n - 1 } 1 => { let k = rng.usize(0, n - 1); v.resize(k); k } 2 => { v.clear(); 0 } _ => { let _ = v.pop(); if n >= 2 { let _ = v.pop(); n - 2 } else { n - 1 } } };
+        if v.size() != newn { st.violation("C20:Vector:after-shrink:size", format!("size {} after shrinking a vector of {} (op {}), expected {}", v.size(), n, how, newn)); continue; }
+        let sv = |x: &V| format!("{:?}", x.vec);
+        for i in newn..=n {
+            let d = || format!("Vector of size {} shrunk to {} (op {}), index {}", n, newn, how, i);
+            must_panic(st, "Vector:index:after-shrink", &d, || v[i]);
+            must_panic_mut(st, "Vector:index_mut:after-shrink", &d, &mut v, sv, |x| x[i] = Rat::ONE);
+            must_panic_mut(st, "Vector:swap:after-shrink", &d, &mut v, sv, |x| x.swap(0, i));
+            if i > newn { must_panic_mut(st, "Vector:insert:after-shrink", &d, &mut v, sv, |x| x.insert(i, Rat::ONE)); }
+            if i > newn { must_panic(st, "Vector:sum_slice:after-shrink", &d, || v.sum_slice(0, i)); }
+        }
+        let w = rv(rng, n);
+        if n != newn { must_panic(st, "Vector:dot:after-shrink", &|| format!("shrunk {} -> {} against {}", n, newn, n), || v.dot(&w)); must_panic(st, "Vector:add(&,&):after-shrink", &|| format!("shrunk {} -> {} against {}", n, newn, n), || &v + &w); }
+        st.nontrivial(hmix(hash_str("shrink-vector"), (n * 10 + how) as u64));
+    } }
+    // Matrix
+    for r in 1..=4usize { for c in 1..=4usize { for how in 0..4usize {
+        st.next_case();
+        let mut a = rm(rng, r, c);
+        match how {
+            0 => { let k = rng.usize(0, r - 1); a.delete_row(k); }
+            1 => { let (r2, c2) = (rng.usize(0, r), rng.usize(0, c)); a.resize(r2, c2); }
+            2 => a.transpose_in_place(),
+            _ => a.clear(),
+        }
+        let (nr, nc) = (a.rows(), a.cols());
+        let sm = |m: &M| snap_m(m);
+        let d = |what: &str, i: usize| format!("Matrix {}x{} turned into {}x{} (op {}), {} {}", r, c, nr, nc, how, what, i);
+        for i in nr..=r.max(nr) + 1 {
+            must_panic(st, "Matrix:get_row:after-shrink", &|| d("row", i), || a.get_row(i));
+            must_panic_mut(st, "Matrix:set_row(range):after-shrink", &|| d("row", i), &mut a, sm, |m| m.set_row(i, V::new(nc, Rat::ONE)));
+            must_panic_mut(st, "Matrix:fill_row:after-shrink", &|| d("row", i), &mut a, sm, |m| m.fill_row(i, Rat::ONE));
+            must_panic_mut(st, "Matrix:delete_row:after-shrink", &|| d("row", i), &mut a, sm, |m| m.delete_row(i));
+            must_panic_mut(st, "Matrix:swap_rows:after-shrink", &|| d("row", i), &mut a, sm, |m| m.swap_rows(0, i));
+        }
+        for j in nc..=c.max(nc) + 1 {
+            must_panic(st, "Matrix:get_col:after-shrink", &|| d("col", j), || a.get_col(j));
+            must_panic_mut(st, "Matrix:set_col(range):after-shrink", &|| d("col", j), &mut a, sm, |m| m.set_col(j, V::new(nr, Rat::ONE)));
+            must_panic_mut(st, "Matrix:fill_col:after-shrink", &|| d("col", j), &mut a, sm, |m| m.fill_col(j, Rat::ONE));
+        }
+        if nc != c { let x = rv(rng, c); must_panic(st, "Matrix:multiply:after-shrink", &|| d("vector of the old column count", c), || a.multiply(&x)); }
+        if nr != r { must_panic_mut(st, "Matrix:set_col(size):after-shrink", &|| d("column vector of the old row count", r), &mut a, sm, |m| m.set_col(0, V::new(r, Rat::ONE))); }
+        if (nr, nc) != (r, c) { let b = rm(rng, r, c); must_panic(st, "Matrix:add(&,&):after-shrink", &|| d("against the old shape", 0), || &a + &b); }
+        st.nontrivial(hmix(hash_str("shrink-matrix"), (r * 100 + c * 10 + how) as u64));
+    } } }
+    // Polynomial
+    for n in 1..=MAXS { for how in 0..2usize {
+        st.next_case();
+        let mut c = rand_vec(rng, n);
+        if how == 1 { let k = rng.usize(1, n); for i in n - k..n { c[i] = Rat::ZERO; } }
+        let mut p = Polynomial::new(c.clone());
+        if how == 0 { let _ = p.coeffs().pop(); } else { p.trim(); }
+        let newn = p.size();
+        if newn >= n { continue; }
+        for i in newn..=n {
+            let d = || format!("Polynomial of size {} shrunk to {} (op {}), index {}", n, newn, how, i);
+            must_panic(st, "Polynomial:index:after-shrink", &d, || p[i]);
+            must_panic_mut(st, "Polynomial:index_mut:after-shrink", &d, &mut p, |q: &Polynomial<Rat>| format!("{:?}", q.clone().coeffs()), |q| q[i] = Rat::ONE);
+        }
+        st.nontrivial(hmix(hash_str("shrink-poly"), (n * 10 + how) as u64));
+    } }
+    // Mesh1D: read a shorter file into a longer live mesh
+    for nold in 3..=7usize { for nnew in 2..nold { for nv in 1..=2usize {
+        let case = st.next_case();
+        let fname = format!("{}/c20_p{}_s{}_u{}_c{}.dat", workdir, std::process::id(), seed, st.unit, case);
+        let mut small = Mesh1D::<f64, f64>::new(Vector::<f64>::linspace(0.0, 1.0, nnew), nv);
+        for i in 0..nnew { for v in 0..nv { small[i][v] = (i * 3 + v) as f64; } }
+        let mut big = Mesh1D::<f64, f64>::new(Vector::<f64>::linspace(-2.0, 5.0, nold), nv);
+        for i in 0..nold { for v in 0..nv { big[i][v] = 1000.0 + (i * 3 + v) as f64; } }
+        let io = catch(|| { small.output(&fname, 6); big.read(&fname); });
+        let _ = std::fs::remove_file(&fname);
+        if !io.is_ok() || big.nnodes() != nnew { st.count("skipped:mesh-file-io-unavailable"); continue; }
+        let s1 = |m: &Mesh1D<f64, f64>| format!("{:?}", (0..m.nnodes()).map(|i| bits(&m.get_nodes_vars(i).vec)).collect::<Vec<_>>());
+        for i in nnew..=nold + 1 {
+            let d = || format!("Mesh1D with {} nodes after read() of a {}-node file, vars {}, node {}", nold, nnew, nv, i);
+            must_panic(st, "Mesh1D:index:after-shrink", &d, || big[i].clone());
+            must_panic_mut(st, "Mesh1D:index_mut:after-shrink", &d, &mut big, s1, |m| m[i][0] = 5.0);
+            must_panic(st, "Mesh1D:get_nodes_vars:after-shrink", &d, || big.get_nodes_vars(i));
+            must_panic(st, "Mesh1D:coord:after-shrink", &d, || big.coord(i));
+            must_panic_mut(st, "Mesh1D:set_nodes_vars(node):after-shrink", &d, &mut big, s1, |m| m.set_nodes_vars(i, Vector::new(nv, 1.0)));
+        }
+        st.nontrivial(hmix(hash_str("shrink-mesh"), (nold * 100 + nnew * 10 + nv) as u64));
+    } } }
+}
+
 fn hostile(rng: &mut Rng) -> f64 {
     match rng.below(8) {
         0 => -0.0, 1 => f64::from_bits(1 + rng.below(1000)), 2 => f64::from_bits(0x7ff8_0000_0000_0000 | rng.below(1 << 20)), 3 => f64::from_bits(0xfff8_0000_0000_0001),
@@ -435,7 +528,9 @@ fn clone_independence(st: &mut Stats, rng: &mut Rng) {
 
 pub fn run(ctx: &Ctx) -> Report {
     let nmat = 25u64; // matrix shapes 0..4 x 0..4
-    let fixed = 5u64;
+    let fixed = 6u64;
+    let _ = std::fs::create_dir_all(&ctx.workdir);
+    let (workdir, seed) = (ctx.workdir.clone(), ctx.seed);
     let nrand = ctx.vol(3000, 150_000);
     let stats = par_run(ctx, TAG, fixed + nmat + nrand, |u, rng, st| {
         match u {
@@ -444,13 +539,14 @@ pub fn run(ctx: &Ctx) -> Report {
             2 => table_tridiagonal(st, rng),
             3 => table_sparse(st, rng),
             4 => table_mesh_poly(st, rng),
+            5 => table_after_shrink(st, rng, &workdir, seed),
             u if u < fixed + nmat => { let v = (u - fixed) as usize; table_matrix(st, rng, v / 5, v % 5); }
             _ => { for _ in 0..10 { non_mutation(st, rng); clone_independence(st, rng); } }
         }
     });
     let entry_points: Vec<String> = stats.counters.keys().filter(|k| k.starts_with("table:")).map(|k| k[6..].to_string()).collect();
     let mut rep = Report::new(stats,
-        "must-panic table: every binary operator / compound assignment / product / solver entry / checked accessor of Vector, Matrix, Banded, Tridiagonal, Sparse, Mesh1D, Mesh2D, Polynomial called with all mismatched size pairs up to 6 (matrices: all shape pairs in [0,4]^2) and every out-of-range row/column/band/node/variable/index up to size+2; for &mut entry points the receiver is snapshotted (all entries + private storage length) and must be identical after the caught panic. Non-mutation: every by-reference operator and &self method on operands containing -0.0, subnormals and NaN payloads, operands compared bit-for-bit afterwards, owned vs borrowed forms bit-identical. Clone independence: interleaved mutations on a matrix and its clone, each against its own model, plus mutate-the-clone checks for Vector, Banded, Tridiagonal, Polynomial. Non-trivial: each table row group / random case; distinct = distinct (type,sizes) or case hashes. The raw (i,j) index operators of Matrix, Banded (beyond the band test) and Mesh2D are outside the claim");
+        "must-panic table: every binary operator / compound assignment / product / solver entry / checked accessor of Vector, Matrix, Banded, Tridiagonal, Sparse, Mesh1D, Mesh2D, Polynomial called with all mismatched size pairs up to 6 (matrices: all shape pairs in [0,4]^2) and every out-of-range row/column/band/node/variable/index up to size+2; for &mut entry points the receiver is snapshotted (all entries + private storage length) and must be identical after the caught panic. After-shrink histories: Vector (pop / resize / clear), Matrix (delete_row / resize / transpose_in_place / clear), Polynomial (coeffs().pop / trim) and Mesh1D (read() of a shorter file into a longer live mesh) are shrunk through their own API and every checked accessor is then called with arguments that were valid before and are out of range now. Non-mutation: every by-reference operator and &self method on operands containing -0.0, subnormals and NaN payloads, operands compared bit-for-bit afterwards, owned vs borrowed forms bit-identical. Clone independence: interleaved mutations on a matrix and its clone, each against its own model, plus mutate-the-clone checks for Vector, Banded, Tridiagonal, Polynomial. Non-trivial: each table row group / random case; distinct = distinct (type,sizes) or case hashes. The raw (i,j) index operators of Matrix, Banded (beyond the band test) and Mesh2D are outside the claim");
     rep.assumptions = vec!["any panic counts as a rejection".into(), "Sparse and the meshes have no Clone; their clone independence is vacuous".into()];
     rep.min_nontrivial = 150;
     let mut ex = J::obj();
